@@ -49,13 +49,41 @@ def start_gen(t, g):
         return t.get_webentity_pages_iter(g["id"], list(g["ps"]))
     if g["kind"] == "qnet":
         return t.get_webentities_links_iter(out=g["out"], include_auto=g["auto"])
+    if g["kind"] == "qcrawled":
+        return t.get_webentity_crawled_pages_iter(g["id"], list(g["ps"]))
+    if g["kind"] == "qoutlinks":
+        return t.get_webentity_outlinks_iter(g["id"], list(g["ps"]))
+    if g["kind"] == "qinlinks":
+        return t.get_webentity_inlinks_iter(g["id"], list(g["ps"]))
+    if g["kind"] == "qpagelinks":
+        return t.get_webentity_pagelinks_iter(g["id"], list(g["ps"]), include_inbound=True, include_internal=True,
+                                              include_outbound=True)
+    if g["kind"] == "qchildren":
+        return t.get_webentity_child_webentities_iter(g["id"], list(g["ps"]))
     raise impl.MachineryError("unknown generator kind %r" % g["kind"])
 
 
 def moment(t, g):
     """The answer the query would give if asked right now (sequence of hashable items)."""
-    if g["kind"] == "qpages":
+    k = g["kind"]
+    if k == "qpages":
         v, e = guarded(lambda: [p["lru"] for p in t.get_webentity_pages(g["id"], list(g["ps"]))])
+        return v or []
+    if k == "qcrawled":
+        v, e = guarded(lambda: [p["lru"] for p in t.get_webentity_crawled_pages(g["id"], list(g["ps"]))])
+        return v or []
+    if k == "qoutlinks":
+        v, e = guarded(lambda: sorted((x or 0) for x in t.get_webentity_outlinks(g["id"], list(g["ps"]))))
+        return v or []
+    if k == "qinlinks":
+        v, e = guarded(lambda: sorted((x or 0) for x in t.get_webentity_inlinks(g["id"], list(g["ps"]))))
+        return v or []
+    if k == "qpagelinks":
+        v, e = guarded(lambda: [[s, tg] for s, tg, w in t.get_webentity_pagelinks(
+            g["id"], list(g["ps"]), include_inbound=True, include_internal=True, include_outbound=True)])
+        return v or []
+    if k == "qchildren":
+        v, e = guarded(lambda: sorted(t.get_webentity_child_webentities(g["id"], list(g["ps"]))))
         return v or []
     v, e = guarded(lambda: t.get_webentities_links(out=g["out"], include_auto=g["auto"]))
     out = []
@@ -67,8 +95,13 @@ def moment(t, g):
 
 
 def result_items(g, res):
-    if g["kind"] == "qpages":
+    k = g["kind"]
+    if k in ("qpages", "qcrawled"):
         return [p["lru"] for p in (res or [])]
+    if k in ("qoutlinks", "qinlinks", "qchildren"):
+        return sorted((x or 0) for x in (res or []))
+    if k == "qpagelinks":
+        return [[s, tg] for s, tg, w in (res or [])]
     out = []
     for s, cnt in (res or {}).items():
         for k in cnt:
@@ -116,9 +149,13 @@ def run_coop(seed, profile, backend, tid, hook=None):
             if rng.random() < 0.4:
                 descr.append({"kind": "rule", "anchor": d.u.host_prefix(), "rule": rng.choice(gen.RULES)})
             wes, _ = guarded(lambda: _webentities(ix, seed))
-            if wes and rng.random() < 0.5:
+            if wes and rng.random() < 0.7:
                 wid, ps = rng.choice(wes)
-                descr.append({"kind": "qpages", "id": wid, "ps": ps})
+                descr.append({"kind": rng.choice(["qpages", "qcrawled", "qoutlinks", "qinlinks", "qpagelinks",
+                                                  "qchildren", "qoutlinks", "qinlinks"]), "id": wid, "ps": ps})
+            if wes and rng.random() < 0.35:
+                wid, ps = rng.choice(wes)
+                descr.append({"kind": rng.choice(["qoutlinks", "qinlinks", "qpagelinks"]), "id": wid, "ps": ps})
             if rng.random() < 0.3:
                 descr.append({"kind": "qnet", "out": rng.random() < 0.5, "auto": rng.random() < 0.5})
             rng.shuffle(descr)
